@@ -182,6 +182,19 @@ def run_nondeg(c):
                 pass
             except Exception as e:  # noqa: BLE001
                 ck.add(exc_fail(e, "nondegenerate3:components"))
+    if d == 3:
+        # the same irreducible quadric next to a plane pair in one collection (either order): still not reducible
+        g, h = np.array(c["n"][:4], float), np.array(c["n"][4:8], float)
+        if np.linalg.matrix_rank(np.stack([g, h])) == 2:
+            pair = pow2_normalise(np.outer(g, h) + np.outer(h, g))
+            for order, mats in (("pair-first", [pair, Sa]), ("pair-last", [Sa, pair])):
+                try:
+                    comp = G.QuadricCollection(np.stack(mats)).components
+                    ck.add(Fail("NO_RAISE", f"mixed-collection:{c['what']}:{order}:components", [np.asarray(x.array).tolist() for x in comp]))
+                except NotReducible:
+                    pass
+                except Exception as e:  # noqa: BLE001
+                    ck.add(exc_fail(e, f"mixed-collection:{order}:components"))
     return ck.result()
 
 
